@@ -73,6 +73,10 @@ def exact_root(q: Fraction, n: int):
     """The rational r >= 0 with r**n == q (q > 0), or None."""
     if q <= 0:
         return None
+    if q == 1:
+        return Fraction(1)
+    if n > 64:
+        return None
     a = _int_root(q.numerator, n)
     b = _int_root(q.denominator, n)
     if a is None or b is None:
@@ -412,8 +416,17 @@ def _op_recip(t, kids, dy, f5, reals, have_reals, all_fx):
 def _op_npow(t, kids, dy, f5, reals, have_reals, all_fx):
     (a,) = kids
     n = int(t[2])
+    # magnitude guard: |a| ** n far outside the double range is a range case (and must not be computed exactly)
+    if n > 1:
+        m_hi = mag_hi(a.enc())
+        m_lo = mag_lo(a.enc())
+        if m_hi > 0:
+            l_hi = abs(mpmath.log(m_hi, 2))
+            l_lo = abs(mpmath.log(m_lo, 2)) if m_lo > 0 else l_hi
+            if n * max(l_hi, l_lo) > 1200:
+                return R("range", why="integer power far outside the double range")
     real = reals[0] ** n if have_reals and abs(n) <= 4096 else None
-    if all_fx:
+    if all_fx and n <= 4096:
         p = a.fx ** n
         if representable(p):
             bad = _exact_or_range(p, dy)
@@ -663,7 +676,7 @@ def hp_eval(t, env):
             return a
         if a == 0 or (n % 2 == 0 and a < 0):
             raise Undefined("root")
-        r = mpmath.root(abs(a), n)
+        r = mpmath.root(abs(a), n) if n <= 64 else mpmath.exp(mpmath.log(abs(a)) / n)
         return r if a > 0 else -r
     if tag == "exp":
         a = hp_eval(t[1], env)
@@ -817,7 +830,7 @@ def _scale(t, env, v):
             return a
         if a[0] == 0 or (n % 2 == 0 and a[0] < 0):
             raise Undefined("root")
-        r = mpmath.root(abs(a[0]), n)
+        r = mpmath.root(abs(a[0]), n) if n <= 64 else mpmath.exp(mpmath.log(abs(a[0])) / n)
         return (r if a[0] > 0 else -r), a[1] / (n * r ** (n - 1))
     if tag == "exp":
         a = _scale(t[1], env, v)
